@@ -23,6 +23,11 @@
       property (D16) — kept as documentation of why the repair is needed.
   * "under each strategy the file is refreshed at the promised points … and always at the end"
       `strategy_points`, `every_n_point`, `final_save`, `end_of_tests_saves_only_at_end`.
+      WHICH strategy a run uses (`--save-report` over `$LCC_SAVE_REPORT` over the default): `cli_option_wins`,
+      `env_is_the_default`, `builtin_default`, `cli_strategy_points`; table `saveOptionTable_agrees`.
+  * a refresh presupposes that the save does not raise: `json_save_never_raises` (every text, every locale
+      encoding, both options), `json_session_never_stopped_by_a_save`; `failing_save_loses_the_rest` and
+      `raw_text_save_can_raise` say what happens otherwise (the XML backend on a lone surrogate: `xml_save_stops_session`).
 
   Assumptions of the file-system model (M13), not proved here: `os.replace` inside one directory is atomic
   and is not observed before the writes to the temporary file, as far as a *process* death and concurrent
@@ -31,6 +36,9 @@
   death).
 -/
 import LccModel.Lemmas.SavingLink
+import LccModel.Lemmas.SavingG
+import LccModel.Lemmas.JsonRender
+import LccModel.Model.Store
 
 namespace LccModel.C10
 open LccModel.Report LccModel.Writer LccModel.Saving
@@ -296,6 +304,77 @@ theorem end_of_tests_saves_only_at_end {clock : Nat → Nat} {s s' : Sess} {e : 
   unfold fileSessionHandle at hf
   cases e <;> simp_all [classOf, handlerKind] <;> (subst hf; rfl)
 
+/-! ### The save itself: every text, every locale encoding
+
+  `FileReportSession._save` → `backend.save_report` → `fh.write(text)` on a file opened in text mode with the locale
+  encoding.  If the write raises (`UnicodeEncodeError`), the exception escapes the handler on the event thread: nothing
+  is refreshed, now or later.  -/
+
+/-- The JSON backend never raises on account of the report's text: whatever the strings hold (lone surrogates, controls,
+    astral characters, in values and in property keys), whatever the options, whatever the generation time and the
+    spelling of numbers / times (ASCII), the text written is pure ASCII and every codec takes it. -/
+theorem json_save_never_raises (a : JsonFile.Atoms) (e : JsonFile.Encoding) (o : JsonFile.Opts) (g : Time) (r : Report) :
+    JsonFile.writeOk e (JsonFile.fileText a o (Serial.toJson g r)) = true :=
+  JsonFile.writeOk_of_ascii e (JsonFile.ascii_fileText a o _)
+
+/-- Hence a run with the JSON backend behaves like the ideal session of the theorems above: no save ever stops the
+    handler loop, every event is handled, every promised refresh and the final save happen. -/
+theorem json_session_never_stopped_by_a_save (a : JsonFile.Atoms) (e : JsonFile.Encoding) (o : JsonFile.Opts)
+    (gen : Report → Time) (strat : Strategy) (clock : Nat → Nat) (s s' : Sess) (es : List Event)
+    (h : sessRun strat clock s es = .ok s') :
+    sessRunG (fun r => JsonFile.writeOk e (JsonFile.fileText a o (Serial.toJson (gen r) r))) strat clock s es = (s', none) :=
+  sessRunG_of_ok (fun r => json_save_never_raises a e o (gen r) r) strat clock es s s' h
+
+/-- What the escaping buys: the same strings written RAW (`ensure_ascii=False`, or the XML serialiser) are refused by
+    the codec — a lone surrogate by UTF-8, any non-ASCII character by an ASCII locale, a CJK character by Latin-1. -/
+theorem raw_text_save_can_raise :
+    JsonFile.writeOk .utf8 [0xDCE9] = false ∧ JsonFile.writeOk .ascii [0xE9] = false ∧ JsonFile.writeOk .latin1 [0x65E5] = false := by
+  decide
+
+/-- A save that raises loses everything that follows: the loop stops at that event, no later event is handled — no later
+    refresh, no save at the end of the session. -/
+theorem failing_save_loses_the_rest {saveOk : Report → Bool} {strat : Strategy} {clock : Nat → Nat} {s : Sess} {e : Event}
+    {err : SessErrG} (h : sessStepG saveOk strat clock s e = .error err) (es : List Event) :
+    sessRunG saveOk strat clock s (e :: es) = (s, some err) ∧ (sessRunG saveOk strat clock s (e :: es)).1.saves = s.saves := by
+  rw [sessRunG_stops h es]
+  exact ⟨rfl, rfl⟩
+
+/-! ### Which strategy: `--save-report`, `$LCC_SAVE_REPORT`, the default -/
+
+/-- The command-line option, when given (non-empty), decides — whatever `$LCC_SAVE_REPORT` holds. -/
+theorem cli_option_wins (s : String) (hs : s ≠ "") (env : Option String) :
+    chosenStrategy (some s) env = parseStrategy s := by
+  simp [chosenStrategy, resolveExpr, truthy_some hs]
+
+/-- Without the option (absent or empty) the variable, when set to something non-empty, decides. -/
+theorem env_is_the_default (cli : Option String) (hc : truthy cli = none) (s : String) (hs : s ≠ "") :
+    chosenStrategy cli (some s) = parseStrategy s := by
+  simp [chosenStrategy, resolveExpr, hc, truthy_some hs]
+
+/-- With neither, the strategy is `at_each_failed_test`. -/
+theorem builtin_default (cli env : Option String) (hc : truthy cli = none) (he : truthy env = none) :
+    chosenStrategy cli env = some .atEachFailedTest := by
+  simp [chosenStrategy, resolveExpr, hc, he, defaultExpr, parseStrategy]
+
+/-- The names of the static strategies mean what the documentation says. -/
+theorem strategy_names :
+    parseStrategy "at_end_of_tests" = some .atEndOfTests ∧ parseStrategy "at_each_suite" = some .atEachSuite ∧
+    parseStrategy "at_each_test" = some .atEachTest ∧ parseStrategy "at_each_failed_test" = some .atEachFailedTest ∧
+    parseStrategy "at_each_log" = some .atEachLog ∧ parseStrategy "at_each_event" = some .atEachLog ∧
+    parseStrategy "every_10s" = some (.everyN 10) ∧ parseStrategy "every 2s" = some (.everyN 2) ∧
+    parseStrategy "at_each_tests" = none ∧ parseStrategy "every_s" = none ∧ parseStrategy "" = none := by decide
+
+/-- `lcc run --save-report s` with ANY environment: the file is refreshed at the points the strategy named on the command
+    line promises (`strategy_points` for the strategy the run really uses). -/
+theorem cli_strategy_points (s : String) (hs : s ≠ "") (env : Option String) (strat : Strategy)
+    (hp : parseStrategy s = some strat) (clock : Nat → Nat) (r0 : Report) (pre : List Event) (e : Event) (s' : Sess) :
+    ∃ used, chosenStrategy (some s) env = some used ∧
+      (sessRun used clock (Sess.init clock r0) (pre ++ [e]) = .ok s' → promised strat e s'.w.report = true →
+        s'.file = some s'.w.report ∧ fold (pre ++ [e]) r0 = .ok s'.w.report) := by
+  refine ⟨strat, by rw [cli_option_wins s hs env, hp], fun h hpr => ?_⟩
+  obtain ⟨h1, h2, _⟩ := strategy_points strat clock r0 pre e s' h hpr
+  exact ⟨h1, h2⟩
+
 /-! ### The file system: crash and concurrent read -/
 
 /-- The repaired save (temporary file beside the report file, then `os.replace`): whatever the state of the
@@ -467,6 +546,22 @@ example : (match sessRun .atEndOfTests (fun _ => 0) (Sess.init (fun _ => 0)) dem
 /-- `every_1s` with a clock advancing 400 ms per reading -/
 example : (match sessRun (.everyN 1) (fun n => 400 * n) (Sess.init (fun n => 400 * n)) demo with
            | .ok s => s.saves.reverse.map (·.1) | .error _ => []) = [10, 16, 17] := by decide
+
+/-- the XML backend on a lone surrogate (open finding D8 / `C09/xml/lone-surrogate-save-fails`, seen from C10): the first
+    save raises, the run stops there — no file at all, although the stream goes on to the end of the session -/
+def xmlSaveOk (r : Report) : Bool :=
+  match Store.xmlFile 0 r with
+  | .ok _ => true
+  | .error _ => false
+
+def demoSurrogate : List Event :=
+  demo.take 4 ++ [.log (.test ["s", "a"]) (some "step") 7 .info (String.singleton (Char.ofNat 0x10F800)) 5] ++ demo.drop 5
+
+theorem xml_save_stops_session :
+    (match sessRunG xmlSaveOk .atEachLog (fun _ => 0) (Sess.init (fun _ => 0)) demoSurrogate with
+     | (s, err) => (s.handled, s.saves.length, err)) = (4, 0, some .save) ∧
+    (match sessRunG xmlSaveOk .atEachLog (fun _ => 0) (Sess.init (fun _ => 0)) demo with
+     | (s, err) => (s.handled, s.saves.length, err)) = (17, 3, none) := by decide +kernel
 
 /-- a prefix-free serialiser exists (hypothesis of `inplace_crash_not_loadable`): a constant one -/
 example : PrefixFree (fun _ => [0]) := fun _ _ _ => rfl
